@@ -23,6 +23,15 @@ IMPORT_PROJECTS = [
     'def test_new():\n    assert [W(), 4] == snapshot()\n',
     'from inline_snapshot import snapshot, outsource\nfrom inline_snapshot import external as ext\n\n\ndef test_known():\n    from inline_snapshot import external\n\n    assert external is ext\n\n\n'
     'def test_new():\n    assert {"page": outsource("p" * 30)} == snapshot()\n',
+    # empty inner snapshots as values of fields that have a default (dataclass, attrs, namedtuple): each records what IT is compared with
+    'from dataclasses import dataclass\nfrom typing import NamedTuple\nimport attrs\nfrom inline_snapshot import snapshot\n\n\nclass Version(NamedTuple):\n    major: int\n    minor: int = 0\n    patch: int = 0\n\n\n'
+    '@dataclass\nclass DV:\n    major: int\n    minor: int = 0\n\n\n@attrs.define\nclass AV:\n    major: int\n    minor: int = 0\n    tags: list = attrs.field(factory=list)\n\n\n'
+    'def test_nt():\n    assert Version(3, 12, 7) == snapshot(Version(major=3, minor=snapshot(), patch=7))\n\n\ndef test_dc():\n    assert DV(3, 12) == snapshot(DV(major=3, minor=snapshot()))\n\n\n'
+    'def test_attrs():\n    assert AV(3, 12, ["x"]) == snapshot(AV(major=3, minor=snapshot(), tags=snapshot()))\n\n\ndef test_nested():\n    assert [Version(1, 2, 3)] == snapshot([Version(major=1, minor=snapshot(), patch=snapshot())])\n',
+    # objects whose repr() is no code and is built from the repr() of their parts (as docs/customize_repr.md recommends): Enum members, types, sets, nested objects
+    'from enum import Enum\nfrom inline_snapshot import snapshot\n\n\nclass State(Enum):\n    DONE = 1\n\n\nclass Job:\n    def __init__(self, name, state, kinds):\n        self.name, self.state, self.kinds = name, state, kinds\n\n'
+    '    def __repr__(self):\n        return f"<Job {self.name} {repr(self.state)} {repr(self.kinds)} {repr(int)}>"\n\n    def __eq__(self, other):\n        if not isinstance(other, Job):\n            return NotImplemented\n        return (self.name, self.state, self.kinds) == (other.name, other.state, other.kinds)\n\n\n'
+    'def test_a():\n    assert Job("build", State.DONE, {"a", "b"}) == snapshot()\n\n\ndef test_b():\n    assert [Job("x", State.DONE, set()), 1] == snapshot()\n',
 ]
 
 
